@@ -290,6 +290,9 @@ def read_cgsmiles(pattern):
                 eon_b = _find_next_character(pattern, next_characters, eon_a+1)
                 # the outermost loop goes over how often a the branch has to be
                 # added to the existing sequence
+                # if the branch is expanded only once nothing is added and we
+                # simply continue from the anchor of the branch
+                base_anchor = prev_node
                 for idx in range(0,int(pattern[eon_a+2:eon_b])-1):
                     prev_anchor = None
                     skip = 0
